@@ -362,3 +362,84 @@ Lemma grpc_err_after_bounds_refuted :
   grpc_run_ord u false 0 false 1 4 [[97%N]] STooLong 0 1 [[97%N]] = [PDeliver [97%N] []; PDone] /\
   grpc_run_ord u false 0 true 1 4 [[97%N]] STooLong 0 1 [[97%N]] = [PDeliver [97%N] []; PErr].
 Proof. split; reflexivity. Qed.
+
+(* ---------- round 8: a source that fails while it is read ---------- *)
+
+Section GrpcReadErrorProofs.
+  Variable unmarshal : bytes -> option (bytes * bytes).
+  Variable cont : bool.
+  Variable limit : Z.
+
+  (* an error on a line boundary (or a rest that does not fit the buffer) is the refused-entry case, and with it
+     (grpc_refused_run) the end of the pass loop at a scanner error *)
+  Lemma rerr_spec_boundary : forall a ammo p,
+    p = None \/ p = Some [] -> rerr_spec unmarshal cont limit ammo a p = refused_spec unmarshal cont limit ammo a.
+  Proof.
+    induction a as [|l r IH]; intros ammo p Hp.
+    - destruct Hp as [->| ->]; reflexivity.
+    - cbn [rerr_spec refused_spec]. destruct (limit_reached limit ammo); [reflexivity|].
+      destruct (unmarshal (drop_cr l)) as [[t c]|]; [rewrite IH by exact Hp; reflexivity|].
+      destruct cont; [rewrite IH by exact Hp; reflexivity|reflexivity].
+  Qed.
+
+  (* the token handed out after the error never ends the run successfully *)
+  Lemma rerr_tail_ends_with_error ammo p : exists pre, rerr_tail unmarshal cont limit ammo p = pre ++ [PErr] /\ ~ In PDone pre.
+  Proof.
+    unfold rerr_tail. destruct p as [[|b l]|]; try (exists []; split; [reflexivity|intros []]).
+    destruct (limit_reached limit ammo); [exists []; split; [reflexivity|intros []]|].
+    destruct (unmarshal (drop_cr (b :: l))) as [[t c]|].
+    - exists [PDeliver t c]. split; [reflexivity|]. intros [H|[]]. discriminate.
+    - destruct cont; [|exists []; split; [reflexivity|intros []]].
+      exists [PInvalid]. split; [reflexivity|]. intros [H|[]]. discriminate.
+  Qed.
+
+  (* a successful end is the limit's doing, and only within the COMPLETE lines read before the error *)
+  Lemma rerr_spec_done_needs_limit p : forall a ammo,
+    0 <= ammo -> In PDone (rerr_spec unmarshal cont limit ammo a p) ->
+    limit <> 0 /\ limit < ammo + Z.of_nat (length a).
+  Proof.
+    induction a as [|l r IH]; intros ammo H0 Hin.
+    - cbn [rerr_spec] in Hin. destruct (rerr_tail_ends_with_error ammo p) as (pre & E & Hn).
+      rewrite E in Hin. apply in_app_or in Hin. destruct Hin as [Hin|[Hin|[]]]; [contradiction|discriminate].
+    - cbn [rerr_spec] in Hin. cbn [length]. rewrite Nat2Z.inj_succ.
+      destruct (limit_reached limit ammo) eqn:Er.
+      + unfold limit_reached in Er. apply andb_prop in Er. destruct Er as [A B].
+        apply negb_true_iff in A. apply Z.eqb_neq in A. apply Z.leb_le in B. split; [exact A|lia].
+      + assert (Hn : In PDone (rerr_spec unmarshal cont limit (ammo + 1) r p) ->
+                     limit <> 0 /\ limit < ammo + Z.succ (Z.of_nat (length r))).
+        { intros Hi. destruct (IH (ammo + 1)) as [A B]; [lia|exact Hi|]. split; [exact A|lia]. }
+        destruct (unmarshal (drop_cr l)) as [[t c]|].
+        * destruct Hin as [Hin|Hin]; [discriminate|]. apply Hn, Hin.
+        * destruct cont.
+          -- destruct Hin as [Hin|Hin]; [discriminate|]. apply Hn, Hin.
+          -- destruct Hin as [Hin|[]]. discriminate.
+  Qed.
+
+  (* when the limit does not end the run within the complete lines: they are all delivered, in order, then comes
+     what the scanner hands out after the error — which ends with the error *)
+  Lemma rerr_spec_reaches_error p : forall a ammo,
+    0 <= ammo ->
+    limit = 0 \/ ammo + Z.of_nat (length a) <= limit ->
+    (cont = true \/ Forall (decodable unmarshal) a) ->
+    rerr_spec unmarshal cont limit ammo a p =
+    map (deliver_of unmarshal) a ++ rerr_tail unmarshal cont limit (ammo + Z.of_nat (length a)) p.
+  Proof.
+    induction a as [|l r IH]; intros ammo H0 Hlim Hdec.
+    - cbn [rerr_spec map app length Z.of_nat]. rewrite Z.add_0_r. reflexivity.
+    - cbn [rerr_spec map app].
+      assert (Hr : limit_reached limit ammo = false).
+      { unfold limit_reached. destruct Hlim as [->|Hlim]; [reflexivity|].
+        cbn [length] in Hlim. apply andb_false_iff. right. apply Z.leb_gt. lia. }
+      rewrite Hr. unfold deliver_of at 1.
+      assert (Hnext : rerr_spec unmarshal cont limit (ammo + 1) r p =
+                      map (deliver_of unmarshal) r ++ rerr_tail unmarshal cont limit (ammo + Z.of_nat (length (l :: r))) p).
+      { rewrite IH; [| lia | | ].
+        - cbn [length]. rewrite Nat2Z.inj_succ. f_equal. f_equal. lia.
+        - destruct Hlim as [->|Hlim]; [left; reflexivity|right]. cbn [length] in Hlim. lia.
+        - destruct Hdec as [Hc|Hd]; [left; exact Hc|right]. inversion Hd; assumption. }
+      destruct (unmarshal (drop_cr l)) as [[t c]|] eqn:Eu.
+      + rewrite Hnext. reflexivity.
+      + destruct Hdec as [->|Hd]; [rewrite Hnext; reflexivity|].
+        inversion Hd as [|? ? Hl _]. unfold decodable in Hl. congruence.
+  Qed.
+End GrpcReadErrorProofs.
